@@ -87,7 +87,7 @@ def falsify(ctx):
         job["preamble"] = None
         try:
             hit, tree = check_case(inputs, cmps, job, registry)
-        except ZeroDivisionError:
+        except (ZeroDivisionError, stages.TooCostly):
             ctx.count("skip:zero-division")
             continue
         except Exception as e:  # noqa
@@ -104,6 +104,8 @@ def replay(ctx, hit):
     from ..worker import cmps_from
     try:
         h, _ = check_case([tuple(x) for x in hit["input"]], cmps_from(hit["cmps"]), hit["job"], stages.make_registry())
+    except stages.TooCostly:
+        raise
     except Exception as e:  # noqa
         h = {"kind": "pipeline-raises", "observed": f"{type(e).__name__}: {e}"}
     return h
